@@ -483,9 +483,15 @@ def r5_expand(body, kind, occ, qual_name):
         if t.kind in ('num', 'lifetime'):
             r -= 1
             continue
-        if t.kind == 'punct' and t.text in ('.', ':', '&'):
+        if t.kind == 'punct' and t.text in ('.', ':'):
             r -= 1
             continue
+        if t.kind == 'punct' and t.text == '&':
+            # a unary borrow at the start of the receiver; `a && b` / `a & b` end the chain
+            prev = toks[s[r - 1]] if r >= 1 else None
+            if prev is None or (prev.kind == 'punct' and prev.text in ('(', ',', '=', '{', ';', '|', '!', '[')) or (prev.kind == 'ident' and prev.text in CHAIN_STOP_IDENTS):
+                r -= 1
+            break
         break
     recv_start = toks[s[r + 1]].start
     recv = body[recv_start:toks[s[pos]].start].strip()
